@@ -12,11 +12,11 @@ NOT_DECIDED = {
  "C05": "real concurrency (apply order vs WAL order); publication protocol and dequeue_applied only sequentially",
  "C06": "partition_point search (window assumed well-formed); metamorphic equality only via drivers",
  "C07": "crash inside an operation; CoreInner::new (manifest load order) only via drivers",
- "C08": "the BTreeMap itself (trusted std semantics), the range cursor's merge of write set and snapshot, get_at's write-set rule, the one-line wrappers: bounded only",
- "C09": "k-way merge only bounded: > 3 keys, > 3 cursor calls, several tables per level, block boundaries",
+ "C08": "the BTreeMap itself (trusted std semantics), get_at's write-set rule, the one-line wrappers: bounded only; the snapshot side of the range cursor is opaque in unit ws_merge",
+ "C09": "the k-way merge of the SNAPSHOT cursor (tables / memtables) only bounded: > 3 keys, > 3 cursor calls, several tables per level, block boundaries; the write-set merge on top of it is under contract",
  "C10": "backward path of the history cursor, Transaction::get_at and the B+tree index back end only bounded",
  "C11": "GC predicate text (closure), VLog::append (rotation, locks), readers racing with clean-up",
- "C12": "writer/reader round-trip as a LEMMA (bounded by log_enum instead), compression",
+ "C12": "writer/reader round-trip as a LEMMA (bounded by log_enum instead), compression; replay_wal only bounded",
  "C13": "block / index cursors and bloom filter only bounded",
  "C14": "the file copies; components of the checkpoint and restore protocols are opaque; readers concurrent with a restore",
  "C15": "faults outside the WAL (table, manifest, value log), short writes; F25 open; partial effects of a failing memtable apply",
